@@ -269,6 +269,13 @@ def run(c, chk):
                 if cn[0] == 'icmp' and cn[1] in ('eq', 'ne') and ((cn[1] == 'ne') == t) and \
                         {sym.norm(cn[2]), sym.norm(cn[3])} == {sym.norm(e.res), ('idx', ('p', 'filename'), ('c', 1))}:
                     ne.add(47)
+        # strcspn(filename + 1, R) != 0: the character after the tilde is neither the terminator nor a member of R
+        for e in p.events[:p.events.index(gp[0])]:
+            if e.kind == 'call' and e.name == 'strcspn' and e.args[0] == ('idx', ('p', 'filename'), ('c', 1)) and e.args[1][0] == 'str':
+                for cn, t, _ in p.assume[:seq]:
+                    if cn[0] == 'icmp' and cn[1] in ('eq', 'ne') and sym.C0 in (cn[2], cn[3]) and e.res in (cn[2], cn[3]) and ((cn[1] == 'ne') == t):
+                        ne.add(0)
+                        ne |= set(e.args[1][1].encode('latin-1'))
         if not {0, 47} <= ne:
             badp = badp or (p, gp[0], ne)
     if badp is not None:
